@@ -4,18 +4,21 @@ import RbModel.Frames
 namespace RbModel.Drv.Frames
 open RbModel RbModel.Frames
 
-private def op? : Sexp → Option Op
-  | .atom "u" => some .push
-  | .atom "o" => some .pop
-  | .atom "w" => some (.write fun f => { f with a := f.a + 1 })
+private def op? : Sexp → Option MOp
+  | .atom "u" => some (.op .push)
+  | .atom "o" => some (.op .pop)
+  | .atom "w" => some (.op (.write fun f => { f with a := f.a + 1 }))
+  | .atom "c" => some .call
+  | .atom "r" => some .ret
+  | .atom "l" => some .leave
   | _ => none
 
 def handle (cmd : String) (args : List Sexp) : Option String :=
   match cmd, args with
-  -- (frames.depths (u|o|w ...)) -> depth of register_stack before each instruction
+  -- (frames.depths (u|o|w|c|r|l ...)) -> depth of register_stack before each instruction
   | "frames.depths", [.list ops] => do
       let ops ← ops.mapM op?
-      pure ("(" ++ " ".intercalate ((depths [Frame.fresh] ops).map toString) ++ ")")
+      pure ("(" ++ " ".intercalate ((depths ([Frame.fresh], []) ops).map toString) ++ ")")
   | _, _ => none
 
 end RbModel.Drv.Frames
